@@ -177,6 +177,31 @@ without it (so the periodic cleaner never changes what sequential callers see). 
 def cleanup_unobservable_statement : Prop :=
   ∀ (c : Cache) (ops : List Op), outputs (doCleanup c) ops = outputs c ops
 
+/-- **cleanup_unobservable.** Proved by a simulation: a cache and its cleaned-up copy have the same
+clock, configuration and servable entries (`ObsEq`), every operation preserves that relation and
+answers identically (`obsEq_step`; `Advance` needs the clock to move forward only). -/
+theorem cleanup_unobservable : cleanup_unobservable_statement := by
+  intro c ops
+  exact obsEq_outputs (c1 := doCleanup c) (c2 := c) ⟨rfl, rfl, fun k => live_cleanup c k⟩ ops
+
+/-- Consequently a `Cleanup` inserted anywhere into a history changes no answer, before or after. -/
+theorem cleanup_insertion_unobservable (c : Cache) (pre post : List Op) :
+    outputs c (pre ++ [.cleanup] ++ post) =
+      outputs c pre ++ [Out.done] ++ outputs (run c pre) post := by
+  induction pre generalizing c with
+  | nil =>
+    simp only [List.nil_append, outputs, run, List.foldl_nil, List.singleton_append, step]
+    exact congrArg _ (cleanup_unobservable c post)
+  | cons o pre ih =>
+    simp only [List.cons_append, outputs, run, List.foldl_cons]
+    have := ih (step c o).1
+    simp only [run] at this
+    rw [this]
+
+example : outputs (doCleanup (run (Cache.init 0 0) [.set "a" 1 1, .advance 2000000000]))
+      [.get "a", .set "a" 2 1, .get "a", .advance 1000000000, .get "a"]
+    = [.miss, .done, .hit 2, .done, .miss] := by decide
+
 /-- **Boundary.** An entry whose expiry equals the clock is missed by `Get` and kept by `Cleanup`;
 one nanosecond earlier `Get` hits; one nanosecond later `Cleanup` removes it. -/
 theorem boundary_exp_eq_now (c : Cache) (k : Key) (e : Entry) (hg : mget c.m k = some e) :
@@ -432,19 +457,38 @@ example :
       [.advance 1000000000, .bgTake, .cNow 0, .cSeal 0, .stopCall 1, .stopCall 2, .cEnd 0, .bgExit,
        .stopReturn 2, .stopReturn 1, .stopCall 3, .stopReturn 3]).isSome = true := by decide
 
-/-- Trace-level reading of `hit_is_fresh` (not proved in this round): for every run `ls` from the
-initial state, a hit equals what the backwards scan `lastLive` of the callers' Set/Delete/Advance
-labels yields. Proved so far: the state-level theorem above, whose `ref` is updated by exactly
-those labels. -/
+/-- Trace-level reading of `hit_is_fresh`: for every run `ls` of the LTS from the initial state (any
+interleaving of callers' operations and cleaners' internal steps), a hit equals what the backwards
+scan `lastLive` over the callers' Set/Delete/Advance labels of that very run yields, and strictly
+less than `min(ttl, MaxTTL?)` seconds have elapsed since that Set. -/
 def hit_is_fresh_trace_statement : Prop :=
   ∀ (maxTTL t0 period : Int) (ls : List Label) (s : CState) (k : Key) (v : Val),
     crun (CState.init maxTTL t0 period) ls = some s → getOfC s k = some v →
     (∀ k' v' ttl, Label.set k' v' ttl ∈ ls → NoOverflow maxTTL ttl) →
-    ∃ ttl el, lastLive k ((ls.filterMap (fun l => match l with
-        | .set k v ttl => some (Op.set k v ttl)
-        | .delete k => some (Op.delete k)
-        | .advance d => some (Op.advance d)
-        | _ => none)).reverse) 0 = some (v, ttl, el) ∧ (el : Int) < effTTL maxTTL ttl * second
+    ∃ ttl el, lastLive k ((ls.filterMap projOp).reverse) 0 = some (v, ttl, el) ∧
+      (el : Int) < effTTL maxTTL ttl * second
+
+/-- **hit_is_fresh_trace.** -/
+theorem hit_is_fresh_trace : hit_is_fresh_trace_statement := by
+  intro maxTTL t0 period ls s k v hrun hget hno
+  have hr : Reach maxTTL t0 period s := reach_of_crun ls _ s Reach.init hrun
+  obtain ⟨e, st, href, hval, hlt⟩ := hit_is_fresh hr k v hget
+  have hA := refAgree_run ls _ s [] (refAgree_init maxTTL t0 period) hrun
+  simp only [List.append_nil] at hA
+  obtain ⟨ttl, el, hl, hexp⟩ := hA.2 k (e, st) href
+  obtain ⟨hin, hpos⟩ := lastLive_mem k e.val ttl el _ _ hl
+  have hlab : Label.set k e.val ttl ∈ ls := by
+    have h1 : Op.set k e.val ttl ∈ ls.filterMap projOp := by simpa using hin
+    obtain ⟨l, hl1, hl2⟩ := List.mem_filterMap.1 h1
+    cases l <;> simp [projOp] at hl2
+    obtain ⟨rfl, rfl, rfl⟩ := hl2
+    exact hl1
+  have hd := durNs_exact maxTTL ttl hpos (hno k e.val ttl hlab)
+  refine ⟨ttl, el, ?_, ?_⟩
+  · rw [← hval]; exact hl
+  · simp only [] at hexp
+    rw [hd] at hexp
+    omega
 
 /-! ## T1: the source's shape, regenerated from ttlcache.go on every run (`KitModel/Generated/C15.lean`)
 
